@@ -310,9 +310,9 @@ func shortFunc(f string) string {
 }
 
 var (
-	reQuoted = regexp.MustCompile("\"[^\"]*\"|`[^`]*`|'[^']*'")
-	reNum    = regexp.MustCompile(`[0-9]+`)
-	reNonKey = regexp.MustCompile(`[^a-z]+`)
+	reQuoted  = regexp.MustCompile("\"[^\"]*\"|`[^`]*`|'[^']*'")
+	reNum     = regexp.MustCompile(`[0-9]+`)
+	reNonKey  = regexp.MustCompile(`[^a-z]+`)
 	reLineCol = regexp.MustCompile(`line -?[0-9]+ column -?[0-9]+`)
 )
 
@@ -999,8 +999,8 @@ func runC03(cfg Config, r *Result) {
 		cases = append(cases, mutCase{p.Src, "program"})
 	}
 	// mutation stream
-	nmut := cfg.N(14, 160)    // programs mutated
-	budget := cfg.N(25, 120)  // per-family budget per program
+	nmut := cfg.N(14, 160)   // programs mutated
+	budget := cfg.N(25, 120) // per-family budget per program
 	small := []corpusProg{}
 	for _, p := range corpus {
 		if n := len(p.Src); n >= 20 && n <= cfg.N(700, 2500) {
